@@ -1,3 +1,4 @@
+import DSV.Proofs.TxOps
 import DSV.Model.Append
 /-!
 # C11 — accepted appends are exact; rejected ones leave no trace; scans keep working
@@ -268,5 +269,23 @@ example : ∃ t', append t0 (some base) [rec1] = .ok t' ∧ scanRows t' = [rec1]
 example : append t0 (some reordered) [rec1] = .error .schemaMismatch := by decide +kernel
 example : append t0 none [[("b", "min")]] = .error .badRecord := by decide +kernel
 example : fits "int" "float-integral" = true ∧ fits "int" "float-fractional" = false := by decide +kernel
+
+end DSV.Props.C11
+
+/-! ### several operations queued in one transaction -/
+namespace DSV.Props.C11
+open DSV.TxOps
+
+/-- **all_queued_appends_committed** — every file of EVERY append queued in a transaction reaches the commit (queue order kept) -/
+theorem all_queued_appends_committed (ops : List Op) (fs : List Nat) (h : Op.appendFiles fs ∈ ops) :
+    ∀ f ∈ fs, f ∈ (partition ops).appends := mem_appends ops fs h
+
+theorem queued_appends_exact (ops : List Op) :
+    (partition ops).appends = ops.flatMap fun o => match o with | .appendFiles fs => fs | _ => [] := partition_appends ops
+
+/-- what the property excludes: keeping only the last queued append -/
+theorem last_append_only_loses_rows :
+    ([Op.appendFiles [1, 2], .appendFiles [3], .deleteFiles [9], .appendFiles [4]].foldl stepPartLastAppendOnly ⟨[], [], none⟩).appends = [4] ∧
+    (partition [Op.appendFiles [1, 2], .appendFiles [3], .deleteFiles [9], .appendFiles [4]]).appends = [1, 2, 3, 4] := by decide
 
 end DSV.Props.C11
